@@ -98,22 +98,22 @@ theorem table_total (ht i : Nat) (e : Edit) : Committed ht i e = !Uncommitted ht
   unfold Uncommitted; simp
 
 /-- an `Uncommitted` edit leaves every committed part of every transaction as it was -/
-theorem uncommitted_edit_agree (ht i : Nat) (e : Edit) (t : Tx) (h : Uncommitted ht i e = true) :
-    Agree ht i t (apply e t) :=
-  uncommitted_agree ht i e t (by simpa [Uncommitted] using h)
+theorem uncommitted_edit_agree (ht i : Nat) (e : Edit) (t : Tx) (h : Uncommitted ht i e = true)
+    (hsafe : insertSafe i e t = true) : Agree ht i t (apply e t) :=
+  uncommitted_agree ht i e t (by simpa [Uncommitted] using h) hsafe
 
 /-- **uncommitted_edit_preserves.**  Changes confined to parts the hash type leaves uncommitted do
     not change the signature hash: digest-level equality (and same error indication) for every
     transaction, script code, index and hash-type value, without any hypothesis. -/
 theorem uncommitted_edit_preserves (sc : Bytes) (t : Tx) (i ht : Nat) (e : Edit)
-    (h : Uncommitted ht i e = true) :
+    (h : Uncommitted ht i e = true) (hsafe : insertSafe i e t = true) :
     legacySighash sc (apply e t) i ht = legacySighash sc t i ht :=
-  agree_sighash_eq sc t (apply e t) i ht (uncommitted_edit_agree ht i e t h)
+  agree_sighash_eq sc t (apply e t) i ht (uncommitted_edit_agree ht i e t h hsafe)
 
 /-- only `Committed` edits can change a committed part -/
-theorem changes_only_if_committed (ht i : Nat) (e : Edit) (t : Tx) (h : changes ht i e t) :
-    Committed ht i e = true :=
-  committed_of_changes h
+theorem changes_only_if_committed (ht i : Nat) (e : Edit) (t : Tx) (h : changes ht i e t)
+    (hsafe : insertSafe i e t = true) : Committed ht i e = true :=
+  committed_of_changes h hsafe
 
 /-- **committed_edit_changes.**  A `Committed` edit that changes a committed part of the transaction
     changes the hashed message (regular case before and after, fields in wire range before and
@@ -153,9 +153,9 @@ theorem committed_field_edit_changes (ht i : Nat) (e : Edit) (t : Tx) (hC : Comm
 /-- … inserting / removing an input (without ANYONECANPAY) or an output (mode ALL) at an existing
     position: always (the count is committed). -/
 theorem committed_count_edit_changes (ht i : Nat) (t : Tx) :
-    (∀ k x, isAnyoneCanPay ht = false → k ≤ t.vin.length → changes ht i (.insertInput k x) t) ∧
+    (∀ k x, isAnyoneCanPay ht = false → changes ht i (.insertInput k x) t) ∧
     (∀ k, isAnyoneCanPay ht = false → k < t.vin.length → changes ht i (.removeInput k) t) ∧
-    (∀ k o, isAll ht = true → k ≤ t.vout.length → changes ht i (.insertOutput k o) t) ∧
+    (∀ k o, isAll ht = true → changes ht i (.insertOutput k o) t) ∧
     (∀ k, isAll ht = true → k < t.vout.length → changes ht i (.removeOutput k) t) :=
   changes_of_count_edit
 
@@ -489,17 +489,18 @@ theorem txCtx_sigTotal : (txCtx hashes ecdsa tx i).SigTotal := ⟨fun _ _ _ _ _ 
 
 /-- the signature oracle of the edited transaction agrees with that of the original on every
     signature whose hash type leaves the edit uncommitted -/
-theorem sigCheck_uncommitted_edit (body key sc : Bytes) (ht : Nat) (h : Uncommitted ht i e = true) :
+theorem sigCheck_uncommitted_edit (body key sc : Bytes) (ht : Nat) (h : Uncommitted ht i e = true)
+    (hsafe : insertSafe i e tx = true) :
     (txEnv hashes ecdsa (apply e tx) i).sigCheck body key sc ht = (txEnv hashes ecdsa tx i).sigCheck body key sc ht := by
-  simp only [txEnv, uncommitted_edit_preserves sc tx i ht e h]
+  simp only [txEnv, uncommitted_edit_preserves sc tx i ht e h hsafe]
 
 theorem chkSig_uncommitted_edit (sc sig key : Bytes)
-    (h : ∀ ht, sig.getLast? = some ht → Uncommitted ht.toNat i e = true) :
+    (h : ∀ ht, sig.getLast? = some ht → Uncommitted ht.toNat i e = true) (hsafe : insertSafe i e tx = true) :
     chkSig (txEnv hashes ecdsa (apply e tx) i) sc sig key = chkSig (txEnv hashes ecdsa tx i) sc sig key := by
   unfold chkSig
   cases hl : sig.getLast? with
   | none => rfl
-  | some ht => exact sigCheck_uncommitted_edit hashes ecdsa tx i e _ _ _ _ (h ht hl)
+  | some ht => exact sigCheck_uncommitted_edit hashes ecdsa tx i e _ _ _ _ (h ht hl) hsafe
 
 /-- the oracle of the edited transaction rejects what was accepted, under the two cryptographic
     hypotheses -/
@@ -519,18 +520,18 @@ theorem sigCheck_committed_edit (body key sc : Bytes) (ht : Nat)
 
 theorem p2pk_uncommitted_edit_same_verdict (body : Bytes) (ht : UInt8) (key : Bytes)
     (hfl : fl.admissible = true) (hk : key.length < 0x4c) (hs : body.length + 1 < 0x4c)
-    (hne : body.length + 1 ≠ key.length) (hU : Uncommitted ht.toNat i e = true) :
+    (hne : body.length + 1 ≠ key.length) (hU : Uncommitted ht.toNat i e = true) (hsafe : insertSafe i e tx = true) :
     verifyScript (txCtx hashes ecdsa (apply e tx) i) fl (p2pkScriptSig (body ++ [ht])) (p2pkScript key) =
       verifyScript (txCtx hashes ecdsa tx i) fl (p2pkScriptSig (body ++ [ht])) (p2pkScript key) := by
   rw [p2pk_verify _ fl body ht key hfl (txCtx_sigTotal ..) hk hs hne,
     p2pk_verify _ fl body ht key hfl (txCtx_sigTotal ..) hk hs hne]
   show (if (txEnv hashes ecdsa (apply e tx) i).sigCheck _ _ _ _ = true then _ else _) = _
-  rw [sigCheck_uncommitted_edit hashes ecdsa tx i e _ _ _ _ hU]
+  rw [sigCheck_uncommitted_edit hashes ecdsa tx i e _ _ _ _ hU hsafe]
   rfl
 
 theorem p2pkh_uncommitted_edit_same_verdict (body : Bytes) (ht : UInt8) (key : Bytes)
     (hfl : fl.admissible = true) (hk : key.length < 0x4c) (hs : body.length + 1 < 0x4c)
-    (hhl : (hashes.hash160 key).length = 20) (hne : body.length + 1 ≠ 20) (hU : Uncommitted ht.toNat i e = true) :
+    (hhl : (hashes.hash160 key).length = 20) (hne : body.length + 1 ≠ 20) (hU : Uncommitted ht.toNat i e = true) (hsafe : insertSafe i e tx = true) :
     verifyScript (txCtx hashes ecdsa (apply e tx) i) fl (p2pkhScriptSig (body ++ [ht]) key)
         (p2pkhScript (hashes.hash160 key)) =
       verifyScript (txCtx hashes ecdsa tx i) fl (p2pkhScriptSig (body ++ [ht]) key)
@@ -541,14 +542,15 @@ theorem p2pkh_uncommitted_edit_same_verdict (body : Bytes) (ht : UInt8) (key : B
   rw [show (txCtx hashes ecdsa tx i).env.hashes.hash160 key = hashes.hash160 key from rfl] at e2
   rw [e1, e2]
   show (if (txEnv hashes ecdsa (apply e tx) i).sigCheck _ _ _ _ = true then _ else _) = _
-  rw [sigCheck_uncommitted_edit hashes ecdsa tx i e _ _ _ _ hU]
+  rw [sigCheck_uncommitted_edit hashes ecdsa tx i e _ _ _ _ hU hsafe]
   rfl
 
 theorem multisig_uncommitted_edit_same_verdict (m : Nat) (keys sigs : List Bytes)
     (hfl : fl.admissible = true) (hm1 : 1 ≤ m) (hmn : m ≤ keys.length) (hn : keys.length ≤ 20)
     (hsl : sigs.length = m) (hk : ∀ k ∈ keys, k.length < 0x4c) (hs : ∀ s ∈ sigs, s.length < 0x4c)
     (hs1 : ∀ s ∈ sigs, s.length ≠ 1) (hne : ∀ s ∈ sigs, ∀ k ∈ keys, s.length ≠ k.length)
-    (hU : ∀ s ∈ sigs, ∀ ht, s.getLast? = some ht → Uncommitted ht.toNat i e = true) :
+    (hU : ∀ s ∈ sigs, ∀ ht, s.getLast? = some ht → Uncommitted ht.toNat i e = true)
+    (hsafe : insertSafe i e tx = true) :
     verifyScript (txCtx hashes ecdsa (apply e tx) i) fl (multisigScriptSig sigs) (multisigScript m keys) =
       verifyScript (txCtx hashes ecdsa tx i) fl (multisigScriptSig sigs) (multisigScript m keys) := by
   rw [verify_multisig _ fl m keys sigs hfl (txCtx_sigTotal ..) hm1 hmn hn hsl hk hs hs1 hne,
@@ -557,7 +559,7 @@ theorem multisig_uncommitted_edit_same_verdict (m : Nat) (keys sigs : List Bytes
       greedy (chkSig (txCtx hashes ecdsa tx i).env (multisigScript m keys)) sigs.reverse keys.reverse := by
     apply greedy_congr
     intro s hs' k
-    exact chkSig_uncommitted_edit hashes ecdsa tx i e _ s k (hU s (by simpa using hs'))
+    exact chkSig_uncommitted_edit hashes ecdsa tx i e _ s k (hU s (by simpa using hs')) hsafe
   rw [this]
 
 /-! ### committed edits: acceptance becomes rejection (under the cryptographic hypotheses) -/
@@ -655,7 +657,7 @@ theorem multisig_committed_edit_rejects (m : Nat) (keys sigs : List Bytes)
 
 theorem p2sh_p2pkh_uncommitted_edit_same_verdict (body : Bytes) (ht : UInt8) (key : Bytes)
     (hfl : fl.admissible = true) (hp : fl.p2sh = true) (hk : key.length < 0x4c) (hs : body.length + 1 < 0x4c)
-    (hhl : ∀ x, (hashes.hash160 x).length = 20) (hne : body.length + 1 ≠ 20) (hU : Uncommitted ht.toNat i e = true) :
+    (hhl : ∀ x, (hashes.hash160 x).length = 20) (hne : body.length + 1 ≠ 20) (hU : Uncommitted ht.toNat i e = true) (hsafe : insertSafe i e tx = true) :
     let redeem := p2pkhScript (hashes.hash160 key)
     verifyScript (txCtx hashes ecdsa (apply e tx) i) fl (p2shScriptSig (p2pkhScriptSig (body ++ [ht]) key) redeem)
         (p2shScript (hashes.hash160 redeem)) =
@@ -668,7 +670,7 @@ theorem p2sh_p2pkh_uncommitted_edit_same_verdict (body : Bytes) (ht : UInt8) (ke
   rw [show (txCtx hashes ecdsa tx i).env.hashes = hashes from rfl] at e2
   rw [e1, e2]
   show (if (txEnv hashes ecdsa (apply e tx) i).sigCheck _ _ _ _ = true then _ else _) = _
-  rw [sigCheck_uncommitted_edit hashes ecdsa tx i e _ _ _ _ hU]
+  rw [sigCheck_uncommitted_edit hashes ecdsa tx i e _ _ _ _ hU hsafe]
   rfl
 
 theorem p2sh_multisig_uncommitted_edit_same_verdict (m : Nat) (keys sigs : List Bytes)
@@ -677,7 +679,8 @@ theorem p2sh_multisig_uncommitted_edit_same_verdict (m : Nat) (keys sigs : List 
     (hs : ∀ s ∈ sigs, s.length < 0x4c) (hs1 : ∀ s ∈ sigs, s.length ≠ 1)
     (hne : ∀ s ∈ sigs, ∀ k ∈ keys, s.length ≠ k.length)
     (hrl : (multisigScript m keys).length ≤ 520) (hhl : ∀ x, (hashes.hash160 x).length = 20)
-    (hU : ∀ s ∈ sigs, ∀ ht, s.getLast? = some ht → Uncommitted ht.toNat i e = true) :
+    (hU : ∀ s ∈ sigs, ∀ ht, s.getLast? = some ht → Uncommitted ht.toNat i e = true)
+    (hsafe : insertSafe i e tx = true) :
     let redeem := multisigScript m keys
     verifyScript (txCtx hashes ecdsa (apply e tx) i) fl (p2shScriptSig (multisigScriptSig sigs) redeem)
         (p2shScript (hashes.hash160 redeem)) =
@@ -698,13 +701,13 @@ theorem p2sh_multisig_uncommitted_edit_same_verdict (m : Nat) (keys sigs : List 
       greedy (chkSig (txCtx hashes ecdsa tx i).env (multisigScript m keys)) sigs.reverse keys.reverse := by
     apply greedy_congr
     intro s hs' k
-    exact chkSig_uncommitted_edit hashes ecdsa tx i e _ s k (hU s (by simpa using hs'))
+    exact chkSig_uncommitted_edit hashes ecdsa tx i e _ s k (hU s (by simpa using hs')) hsafe
   rw [this]
 
 theorem p2sh_p2pk_uncommitted_edit_same_verdict (body : Bytes) (ht : UInt8) (key : Bytes)
     (hfl : fl.admissible = true) (hp : fl.p2sh = true) (hk : key.length + 2 < 0x4c) (hs : body.length + 1 < 0x4c)
     (hhl : ∀ x, (hashes.hash160 x).length = 20) (hne : body.length + 1 ≠ key.length)
-    (hU : Uncommitted ht.toNat i e = true) :
+    (hU : Uncommitted ht.toNat i e = true) (hsafe : insertSafe i e tx = true) :
     verifyScript (txCtx hashes ecdsa (apply e tx) i) fl
         (p2shScriptSig (p2pkScriptSig (body ++ [ht])) (p2pkScript key)) (p2shScript (hashes.hash160 (p2pkScript key))) =
       verifyScript (txCtx hashes ecdsa tx i) fl
@@ -715,7 +718,7 @@ theorem p2sh_p2pk_uncommitted_edit_same_verdict (body : Bytes) (ht : UInt8) (key
   rw [show (txCtx hashes ecdsa tx i).env.hashes = hashes from rfl] at e2
   rw [e1, e2]
   show (if (txEnv hashes ecdsa (apply e tx) i).sigCheck _ _ _ _ = true then _ else _) = _
-  rw [sigCheck_uncommitted_edit hashes ecdsa tx i e _ _ _ _ hU]
+  rw [sigCheck_uncommitted_edit hashes ecdsa tx i e _ _ _ _ hU hsafe]
   rfl
 
 theorem p2sh_p2pk_committed_edit_rejects (body : Bytes) (ht : UInt8) (key : Bytes)
@@ -1056,17 +1059,17 @@ theorem p2sh_multisig_real_eq_reference (m : Nat) (keys sigs : List Bytes)
 theorem p2pk_uncommitted_edit_same_verdict_real (body : Bytes) (ht : UInt8) (key : Bytes)
     (hfl : fl.admissible = true) (hwf : FieldsWF tx) (hwf' : FieldsWF (apply e tx))
     (hk : key.length < 0x4c) (hs : body.length + 1 < 0x4c) (hne : body.length + 1 ≠ key.length)
-    (hU : Uncommitted ht.toNat i e = true) :
+    (hU : Uncommitted ht.toNat i e = true) (hsafe : insertSafe i e tx = true) :
     verifyScript (realCtx (apply e tx) (i : Int)) fl (p2pkScriptSig (body ++ [ht])) (p2pkScript key) =
       verifyScript (realCtx tx (i : Int)) fl (p2pkScriptSig (body ++ [ht])) (p2pkScript key) := by
   rw [p2pk_real_eq_reference _ i fl body ht key hfl hwf' hk hs hne,
     p2pk_real_eq_reference _ i fl body ht key hfl hwf hk hs hne]
-  exact p2pk_uncommitted_edit_same_verdict realHashes ecdsaCheck tx i e fl body ht key hfl hk hs hne hU
+  exact p2pk_uncommitted_edit_same_verdict realHashes ecdsaCheck tx i e fl body ht key hfl hk hs hne hU hsafe
 
 theorem p2pkh_uncommitted_edit_same_verdict_real (body : Bytes) (ht : UInt8) (key : Bytes)
     (hfl : fl.admissible = true) (hwf : FieldsWF tx) (hwf' : FieldsWF (apply e tx))
     (hk : key.length < 0x4c) (hs : body.length + 1 < 0x4c) (hne : body.length + 1 ≠ 20)
-    (hU : Uncommitted ht.toNat i e = true) :
+    (hU : Uncommitted ht.toNat i e = true) (hsafe : insertSafe i e tx = true) :
     verifyScript (realCtx (apply e tx) (i : Int)) fl (p2pkhScriptSig (body ++ [ht]) key)
         (p2pkhScript (realHashes.hash160 key)) =
       verifyScript (realCtx tx (i : Int)) fl (p2pkhScriptSig (body ++ [ht]) key)
@@ -1074,25 +1077,26 @@ theorem p2pkh_uncommitted_edit_same_verdict_real (body : Bytes) (ht : UInt8) (ke
   rw [p2pkh_real_eq_reference _ i fl body ht key hfl hwf' hk hs hne,
     p2pkh_real_eq_reference _ i fl body ht key hfl hwf hk hs hne]
   exact p2pkh_uncommitted_edit_same_verdict realHashes ecdsaCheck tx i e fl body ht key hfl hk hs
-    (realHashes_hash160_length key) hne hU
+    (realHashes_hash160_length key) hne hU hsafe
 
 theorem multisig_uncommitted_edit_same_verdict_real (m : Nat) (keys sigs : List Bytes)
     (hfl : fl.admissible = true) (hwf : FieldsWF tx) (hwf' : FieldsWF (apply e tx))
     (hm1 : 1 ≤ m) (hmn : m ≤ keys.length) (hn : keys.length ≤ 20)
     (hsl : sigs.length = m) (hk : ∀ k ∈ keys, k.length < 0x4c) (hs : ∀ s ∈ sigs, s.length < 0x4c)
     (hs1 : ∀ s ∈ sigs, s.length ≠ 1) (hne : ∀ s ∈ sigs, ∀ k ∈ keys, s.length ≠ k.length)
-    (hU : ∀ s ∈ sigs, ∀ ht, s.getLast? = some ht → Uncommitted ht.toNat i e = true) :
+    (hU : ∀ s ∈ sigs, ∀ ht, s.getLast? = some ht → Uncommitted ht.toNat i e = true)
+    (hsafe : insertSafe i e tx = true) :
     verifyScript (realCtx (apply e tx) (i : Int)) fl (multisigScriptSig sigs) (multisigScript m keys) =
       verifyScript (realCtx tx (i : Int)) fl (multisigScriptSig sigs) (multisigScript m keys) := by
   rw [multisig_real_eq_reference _ i fl m keys sigs hfl hwf' hm1 hmn hn hsl hk hs hs1 hne,
     multisig_real_eq_reference _ i fl m keys sigs hfl hwf hm1 hmn hn hsl hk hs hs1 hne]
   exact multisig_uncommitted_edit_same_verdict realHashes ecdsaCheck tx i e fl m keys sigs hfl hm1 hmn hn hsl hk hs
-    hs1 hne hU
+    hs1 hne hU hsafe
 
 theorem p2sh_p2pk_uncommitted_edit_same_verdict_real (body : Bytes) (ht : UInt8) (key : Bytes)
     (hfl : fl.admissible = true) (hp : fl.p2sh = true) (hwf : FieldsWF tx) (hwf' : FieldsWF (apply e tx))
     (hk : key.length + 2 < 0x4c) (hs : body.length + 1 < 0x4c) (hne : body.length + 1 ≠ key.length)
-    (hU : Uncommitted ht.toNat i e = true) :
+    (hU : Uncommitted ht.toNat i e = true) (hsafe : insertSafe i e tx = true) :
     verifyScript (realCtx (apply e tx) (i : Int)) fl
         (p2shScriptSig (p2pkScriptSig (body ++ [ht])) (p2pkScript key)) (p2shScript (realHashes.hash160 (p2pkScript key))) =
       verifyScript (realCtx tx (i : Int)) fl
@@ -1100,12 +1104,12 @@ theorem p2sh_p2pk_uncommitted_edit_same_verdict_real (body : Bytes) (ht : UInt8)
   rw [p2sh_p2pk_real_eq_reference _ i fl body ht key hfl hp hwf' hk hs hne,
     p2sh_p2pk_real_eq_reference _ i fl body ht key hfl hp hwf hk hs hne]
   exact p2sh_p2pk_uncommitted_edit_same_verdict realHashes ecdsaCheck tx i e fl body ht key hfl hp hk hs
-    realHashes_hash160_length hne hU
+    realHashes_hash160_length hne hU hsafe
 
 theorem p2sh_p2pkh_uncommitted_edit_same_verdict_real (body : Bytes) (ht : UInt8) (key : Bytes)
     (hfl : fl.admissible = true) (hp : fl.p2sh = true) (hwf : FieldsWF tx) (hwf' : FieldsWF (apply e tx))
     (hk : key.length < 0x4c) (hs : body.length + 1 < 0x4c) (hne : body.length + 1 ≠ 20)
-    (hU : Uncommitted ht.toNat i e = true) :
+    (hU : Uncommitted ht.toNat i e = true) (hsafe : insertSafe i e tx = true) :
     let redeem := p2pkhScript (realHashes.hash160 key)
     verifyScript (realCtx (apply e tx) (i : Int)) fl (p2shScriptSig (p2pkhScriptSig (body ++ [ht]) key) redeem)
         (p2shScript (realHashes.hash160 redeem)) =
@@ -1117,14 +1121,15 @@ theorem p2sh_p2pkh_uncommitted_edit_same_verdict_real (body : Bytes) (ht : UInt8
   simp only at a b
   rw [a, b]
   exact p2sh_p2pkh_uncommitted_edit_same_verdict realHashes ecdsaCheck tx i e fl body ht key hfl hp hk hs
-    realHashes_hash160_length hne hU
+    realHashes_hash160_length hne hU hsafe
 
 theorem p2sh_multisig_uncommitted_edit_same_verdict_real (m : Nat) (keys sigs : List Bytes)
     (hfl : fl.admissible = true) (hp : fl.p2sh = true) (hwf : FieldsWF tx) (hwf' : FieldsWF (apply e tx))
     (hm1 : 1 ≤ m) (hmn : m ≤ keys.length) (hn : keys.length ≤ 20) (hsl : sigs.length = m)
     (hk : ∀ k ∈ keys, k.length < 0x4c) (hs : ∀ s ∈ sigs, s.length < 0x4c) (hs1 : ∀ s ∈ sigs, s.length ≠ 1)
     (hne : ∀ s ∈ sigs, ∀ k ∈ keys, s.length ≠ k.length) (hrl : (multisigScript m keys).length ≤ 520)
-    (hU : ∀ s ∈ sigs, ∀ ht, s.getLast? = some ht → Uncommitted ht.toNat i e = true) :
+    (hU : ∀ s ∈ sigs, ∀ ht, s.getLast? = some ht → Uncommitted ht.toNat i e = true)
+    (hsafe : insertSafe i e tx = true) :
     let redeem := multisigScript m keys
     verifyScript (realCtx (apply e tx) (i : Int)) fl (p2shScriptSig (multisigScriptSig sigs) redeem)
         (p2shScript (realHashes.hash160 redeem)) =
@@ -1136,7 +1141,7 @@ theorem p2sh_multisig_uncommitted_edit_same_verdict_real (m : Nat) (keys sigs : 
   simp only at a b
   rw [a, b]
   exact p2sh_multisig_uncommitted_edit_same_verdict realHashes ecdsaCheck tx i e fl m keys sigs hfl hp hm1 hmn hn hsl
-    hk hs hs1 hne hrl realHashes_hash160_length hU
+    hk hs hs1 hne hrl realHashes_hash160_length hU hsafe
 
 /-! committed edits, real environment: `hunf` now speaks about the real verifier `Real.ecdsaCheck` -/
 
@@ -1370,7 +1375,7 @@ example : verifyScript (toyCtx (apply (.setValue 0 5) exTx)) exFlags
     (p2pkScriptSig (toySig (exKey 5) (exDigest exTx) ++ [0x83])) (p2pkScript (exKey 5)) = .ok () := by
   have h := p2pk_uncommitted_edit_same_verdict exEnv.hashes toyEcdsa exTx 1 (.setValue 0 5) exFlags
     (toySig (exKey 5) (exDigest exTx)) 0x83 (exKey 5) (by decide) (by decide)
-    (toySig_size 5 exTx (by decide)).1 (toySig_size 5 exTx (by decide)).2 (by decide)
+    (toySig_size 5 exTx (by decide)).1 (toySig_size 5 exTx (by decide)).2 (by decide) (by decide)
   show verifyScript (txCtx exEnv.hashes toyEcdsa (apply (.setValue 0 5) exTx) 1) _ _ _ = _
   rw [h]
   exact template_accepts_p2pk (toyCtx exTx) exFlags _ 0x83 (exKey 5) (by decide) (txCtx_sigTotal ..) (by decide)
